@@ -18,6 +18,8 @@ from armulator.armv6.opcodes.concrete.usada8_t1 import Usada8T1
 
 
 def decode_instruction(instr):
+    if substring(instr, 7, 6) != 0b00:
+        return None
     if substring(instr, 22, 20) == 0b000 and substring(instr, 5, 4) == 0b00 and substring(instr, 15, 12) != 0b1111:
         # Multiply Accumulate
         return MlaT1
